@@ -164,7 +164,11 @@ func (c *Core) runTaskClient(cl *Client) {
 				// this segment have arrived (the scheduler gates the next step)
 				for _, q := range st.Reqs {
 					if q.Rec.Op == "extended" && q.Rec.ExtName == oidStartTLS && !q.Corrupt {
-						if !c.readFrames(cl, ep, 1) {
+						if cl.Eager {
+							if !c.readUntil(cl, ep, q.Rec.MsgID) {
+								return
+							}
+						} else if !c.readFrames(cl, ep, 1) {
 							return
 						}
 						simrt.Park("task", cl.name()+"-hello", nil)
@@ -174,8 +178,8 @@ func (c *Core) runTaskClient(cl *Client) {
 						}
 						plain = false
 						reader(conn)
-					} else if q.Rec.Supported() && q.Rec.Op != "unbind" {
-						if !c.readFrames(cl, ep, len(q.Script.Resps)) {
+					} else if q.Rec.Supported() && q.Rec.Op != "unbind" && !cl.Eager {
+						if !c.readFrames(cl, ep, wantFrames(q)) {
 							return
 						}
 					}
@@ -194,6 +198,39 @@ func (c *Core) runTaskClient(cl *Client) {
 			return
 		default:
 			simrt.Emit("c-step", ep.ID, 0, idx, int64(i), "", nil)
+		}
+	}
+}
+
+// readUntil reads whole LDAPMessages from a plain connection until one with
+// the given message ID has arrived (an eager client: earlier requests may
+// still be outstanding when it asks for StartTLS; C15 workload only).
+func (c *Core) readUntil(cl *Client, ep *simrt.Conn, msgID int64) bool {
+	var acc []byte
+	buf := make([]byte, 4096)
+	for {
+		k, err := ep.Read(buf)
+		if k > 0 {
+			simrt.Emit("c-data", ep.ID, 0, int64(cl.Idx), 1, "", append([]byte(nil), buf[:k]...))
+			acc = append(acc, buf[:k]...)
+			for {
+				l, ferr := FrameLen(acc)
+				if ferr != nil {
+					return false
+				}
+				if l == 0 || len(acc) < l {
+					break
+				}
+				r, perr := ParseResponse(acc[:l])
+				acc = acc[l:]
+				if perr == nil && r.MsgID == msgID {
+					return true
+				}
+			}
+		}
+		if err != nil {
+			simrt.Emit("c-eof", ep.ID, 0, int64(cl.Idx), 0, err.Error(), nil)
+			return false
 		}
 	}
 }
